@@ -458,6 +458,10 @@ function PPContext:raisef(msg, ...)
   except.raise(msg, 2)
 end
 
+-- Modules already loaded, by full path (kept out of `package.loaded`, which error tracebacks walk
+-- in hash order to name functions: a module must be registered there under one name only).
+local loaded_by_path = {}
+
 --[[
 This is just like Lua's require but it will use the preprocessor
 context environment to load the module, so all preprocessor
@@ -507,7 +511,7 @@ function PPContext:require(reqname)
   end
   -- check if module was already loaded by full path
   local modpath = type(loaderdata) == 'string' and fs.abspath(loaderdata)
-  mod = package.loaded[modpath]
+  mod = modpath and loaded_by_path[modpath]
   if mod then -- already loaded under a different name
     package.loaded[modname] = mod
     return mod
@@ -517,7 +521,7 @@ function PPContext:require(reqname)
   mod = loader(modname, loaderdata) -- load the module
   if mod == nil then mod = true end -- module set no value? use true as result
   package.loaded[modname] = mod -- cache module by name
-  if modpath then package.loaded[modpath] = mod end -- cache module by path
+  if modpath then loaded_by_path[modpath] = mod end -- cache module by path
   return mod, loaderdata
 end
 
